@@ -16,6 +16,8 @@ CONSTANTS
   SweepOnly = TRUE
   SweepA <- SweepAs
   SweepB <- SweepBs
+  SweepKinds <- AllSweeps
+  ValuePos <- AllPos
   Sim = FALSE
 INIT SweepInit
 NEXT Next
